@@ -250,6 +250,7 @@ func c19Custom(r *core.Run, tier string) {
 
 	c19Charsets(r, tier)
 	c19Positions(r)
+	c19SpecialSource(r)
 	c19LongAndMixed(r)
 }
 
